@@ -8,7 +8,7 @@ from pyvc.sbytes import SBytes
 from pyvc.report import PropertyRun, Task
 from pyvc.tasks import repo, budget, result_dict, resolve_real
 from pyvc.solve import Obligation, discharge
-from pyvc.symex import explore, Obj
+from pyvc.symex import explore, built_instance, Obj
 from spec import specfun as S
 from props.C01 import term, chunks
 
@@ -50,8 +50,9 @@ class EncodeFastTask(Task):
             ex.assume(z3.And(st >= 0, st <= 7))
             for b in bts:
                 ex.assume(z3.And(b >= 0, b <= 255))
-            enc = Obj(r.cls('encoder', 'NMEA2000Encoder'), {'sequence_counter': mk_int(st, 7)})
+            enc = built_instance(ex, r.cls('encoder', 'NMEA2000Encoder'), {'sequence_counter': mk_int(st, 7)})
             ex.ghost['final_enc'] = enc
+            ex.ghost['enc_before'] = dict(enc.attrs)
             payload = SBytes([mk_int(b, 255) for b in bts])
             pgn = ex.fresh('pgn', bits=18)
             return ex._run_body(info, [pgn, ex.fresh('priority', bits=3), ex.fresh('src', bits=8), ex.fresh('dest', bits=8), payload], {}, enc)
@@ -79,7 +80,8 @@ class EncodeFastTask(Task):
             obs.append(Obligation(f'{base}/sequence-counter-advances-mod-8/path[{pi}]', hyps,
                                   term(p.ex.ghost['final_enc'].attrs['sequence_counter'] == (s + 1) % 8) if 'final_enc' in p.ex.ghost else z3.BoolVal(False), inputs=inputs))
             obs.append(Obligation(f'{base}/assigns-only-sequence_counter/path[{pi}]', hyps,
-                                  z3.BoolVal('final_enc' in p.ex.ghost and set(p.ex.ghost['final_enc'].attrs) == {'sequence_counter'}), inputs=inputs))
+                                  z3.BoolVal('final_enc' in p.ex.ghost and set(p.ex.ghost['final_enc'].attrs) == set(p.ex.ghost['enc_before'])
+                                             and all(v is p.ex.ghost['enc_before'][a] for a, v in p.ex.ghost['final_enc'].attrs.items() if a != 'sequence_counter')), inputs=inputs))
         for ob in obs:
             res = discharge(ob, budget(tier))
             dct = result_dict(res, with_size=False)
